@@ -302,6 +302,8 @@ def c14_oracle(run, corr, deep, n_quick=1500, n_thorough=30000):
     for (l, lc, keep, mal), a, b in zip(pairs, ans_full, ans_clean):
         if a.startswith("cfgerr"):
             continue
+        if a.startswith("HARNESS-EXC") or b.startswith("HARNESS-EXC"):
+            raise vf.HarnessError("world harness could not observe the real objects: %s" % (a if a.startswith("HARNESS-EXC") else b)[:300])
         pa, pb = a.split(" | "), b.split(" | ")
         oa, ob = pa[0].split(" ; "), pb[0].split(" ; ")
         w = None
